@@ -195,16 +195,22 @@ ModulesOfStep(ev) ==
                \cup (IF ms[j].t \in {"SCreate", "SClaim", "STopUp", "SRate", "SCancel"} THEN {"str"} ELSE {}) : j \in DOMAIN ms }
 ParamTag(ev) == IF ModulesOfStep(ev) \cap aux.pchanged # {} THEN {"C16"} ELSE {}
 
+Mutated(ev) == "mutate" \in DOMAIN ev.args /\ ev.args.mutate # ""
+
 Judge(i) ==
   LET ev  == Trace[i]
       pre == Trace[i - 1].post @@ [aux |-> aux]
       exp == IF ev.a = "Restart" THEN Ok(Trace[snap.line].post @@ [aux |-> snap.aux])
-             ELSE IF ev.a = "ExportImport" THEN (IF ImportSucceeds(pre) THEN Ok(ImportExport(pre)) ELSE Panic(pre))
+             \* a document edited so that the escrow account's balance is not the locked total (args.mutate) is refused
+             ELSE IF ev.a = "ExportImport" THEN (IF ~Mutated(ev) /\ ImportSucceeds(pre) THEN Ok(ImportExport(pre)) ELSE Panic(pre))
              ELSE Step(pre, ev.args)
       evm == ev.args @@ [a |-> ev.a]
   IN UNION { Tag(i, "L2", (IF ev.a = "Restart" THEN {"C01"} ELSE IF ev.a = "ExportImport" THEN {"C15"} \cup PathProps(d, ev) \cup ImportAliasProps(d) \cup ImportEntitlementProps(d) ELSE PathProps(d, ev) \cup ParamTag(ev)), d)
                : d \in (IF ev.a = "ExportImport" /\ ~ev.res.ok THEN {} ELSE StateDiff(exp.st, ev.post)) }
-     \cup (IF ev.a = "ExportImport"
+     \cup (IF ev.a = "ExportImport" /\ Mutated(ev)
+           THEN (IF "acceptedMutated" \in DOMAIN ev.res THEN {<<i, "L1", "C04", "GenesisWithUnbackedLockedTotalAccepted">>} ELSE {})
+           ELSE {})
+     \cup (IF ev.a = "ExportImport" /\ ~Mutated(ev)
            THEN (IF ~ev.res.exportOk THEN {<<i, "L1", "C15", "ExportFailed">>} ELSE {})
                 \cup (IF ev.res.importPanic THEN {<<i, "L1", "C15", "ImportPanics">>} ELSE {})
                 \cup (IF ev.res.ok /\ ~ev.res.invOk THEN {<<i, "L1", "C15", "InvariantBrokenAfterImport">>} ELSE {})
